@@ -31,7 +31,7 @@ def judge(rep, s, m):
             rep.count("query-on-invalid-path-returns-false")
         else:
             why = "verdict: backend %s, reference %s" % (impl[:2], mout)
-    elif impl[0] == "ok" and impl[1] != mout[1]:
+    elif impl[0] == "ok" and H.canon_val(impl[1]) != mout[1]:
         why = "value: backend %s, reference %s" % (impl[1], mout[1])
     if why is None and not loose:
         if s.post is None:
@@ -41,13 +41,35 @@ def judge(rep, s, m):
                                                       [e[:2] for e in H.canon_tree(H.dec_tree(mtree))][:12])
     if not wf:
         why = (why or "") + " reference tree not well-formed"
-    if why and len(rep.violations) < 6:
+    if why:
         kindw = why.split(":")[0]
         kc = S.known_class(s)
         rep.violation(H.step_case(s, model=[list(mout), mtree]),
                       "%s.%s%r from tree %r — %s" % (s.kind, s.op[0], s.op[1:], [e[:2] for e in s.pre][:10], why),
                       found_input=True,
                       signature=("C01/known/" + kc) if kc else "C01/%s/%s/%s" % (s.kind, s.op[0], kindw))
+
+
+def judge_mem_exact(rep, s, m, before):
+    (mout, mtree, mclosed, adm, wf) = m
+    rep.count("mem-exact")
+    if mout == ("err", "OperationFailed"):
+        return  # loose: the bulk operation fails mid-way, partial state not modelled
+    impl = tuple(s.impl[:2])
+    why = None
+    if impl != tuple(mout):
+        why = "outcome: MemoryFS %s, transcription %s" % (impl, mout)
+    elif s.post is not None and H.enc_tree(s.post) != mtree:
+        why = "tree/order: MemoryFS %r, transcription %r" % ([e[:2] for e in s.post][:10], [e[:2] for e in H.dec_tree(mtree)][:10])
+    if why:
+        rep.disagreements_checked += 1
+        # the Ref-level judge has already run on this step: if it did not fire, the property
+        # still holds at this input and only the transcription is out of date
+        rep.violation(H.step_case(s, model=[list(mout), mtree]),
+                      "correspondence FsModel.Mem (transcription of fs/memoryfs.py) vs MemoryFS.%s%r from tree %r broke — %s; "
+                      "the backend still agrees with the reference semantics on this input"
+                      % (s.op[0], s.op[1:], [e[:2] for e in s.pre][:10], why),
+                      found_input=False, signature="C01/mem-exact/%s" % s.op[0])
 
 
 def run(rep, tier, seed, deep=False):
@@ -76,6 +98,12 @@ def run(rep, tier, seed, deep=False):
         rep.programs = len(set(s.hist_id for s in steps))
         for s, m in S.with_model(drv, steps):
             judge(rep, s, m)
+        # MemoryFS is additionally tied to its line-by-line transcription FsModel.Mem, *exactly*:
+        # same error class, same listing order (insertion order), same entry order in the tree.
+        mem_steps = [s for s in steps if s.kind == "mem"]
+        before = len(rep.violations)
+        for s, m in zip(mem_steps, H.model_replies(drv, mem_steps, cmd="mem.step", sort_names=False)):
+            judge_mem_exact(rep, s, m, before)
         rep.sample({"backend": steps[0].kind, "op": H.op_json(steps[0].op), "impl": list(steps[0].impl[:2])})
         for s in steps[1::max(1, len(steps) // 5)][:5]:
             rep.sample({"backend": s.kind, "pre": [e[:2] for e in s.pre][:6], "op": H.op_json(s.op), "impl": list(s.impl[:2])})
